@@ -511,3 +511,169 @@ pub fn slice_events(input: &str, output: &str) -> Value {
     }
     json!({"events": n})
 }
+
+// ---------------------------------------------------------------------------------------------
+// direction spec -> code: members of TLC-enumerated families with the rules' expectations
+// ---------------------------------------------------------------------------------------------
+pub fn family_replay(t: &Tables, input: &str) -> Value {
+    use std::collections::BTreeSet;
+    let mut n = 0u64;
+    let mut mismatches: Vec<Value> = Vec::new();
+    let mut nontrivial = 0u64;
+    let kind_of = |b: &BoardState| -> u32 {
+        match b.pawn_promotion {
+            Some(p) => (piece_code(Square::Full(p)) - 1) % 6 + 1,
+            None => 0,
+        }
+    };
+    for line in std::fs::read_to_string(input).unwrap().lines() {
+        let m: Value = match serde_json::from_str(line) {
+            Ok(v) => v,
+            Err(_) => continue,
+        };
+        n += 1;
+        let board = t.build(&m["pos"]);
+        let set_of = |v: &Value| -> BTreeSet<(u32, u32, u32)> {
+            v.as_array().unwrap().iter().map(|x| (x[0].as_u64().unwrap() as u32, x[1].as_u64().unwrap() as u32, x[2].as_u64().unwrap() as u32)).collect()
+        };
+        let want_all = set_of(&m["legal"]);
+        let want_caps = set_of(&m["caps"]);
+        for (mode, want, tag) in [(MoveGenerationMode::AllMoves, &want_all, "moveset"), (MoveGenerationMode::CapturesOnly, &want_caps, "caps")] {
+            let r = catch_unwind(AssertUnwindSafe(|| generate_moves(&board, mode, &t.hasher)));
+            match r {
+                Ok(moves) => {
+                    let got: BTreeSet<(u32, u32, u32)> = moves.iter().map(|s| {
+                        let (f, to) = s.last_move.unwrap_or((Point(0, 0), Point(0, 0)));
+                        (sq_of(f), sq_of(to), kind_of(s))
+                    }).collect();
+                    if &got != want || got.len() != moves.len() {
+                        let extra: Vec<_> = got.difference(want).collect();
+                        let missing: Vec<_> = want.difference(&got).collect();
+                        mismatches.push(json!({"kind": tag, "pos": m["pos"], "extra": extra, "missing": missing, "dup": moves.len() - got.len()}));
+                    }
+                }
+                Err(_) => mismatches.push(json!({"kind": "panic", "pos": m["pos"]})),
+            }
+        }
+        // two-ply expectations: through the engine's own successor object for move m, the next generation
+        if let Some(thens) = m["then"].as_array() {
+            if !thens.is_empty() {
+                if let Ok(moves) = catch_unwind(AssertUnwindSafe(|| generate_moves(&board, MoveGenerationMode::AllMoves, &t.hasher))) {
+                    for th in thens {
+                        let mv = (th["m"][0].as_u64().unwrap() as u32, th["m"][1].as_u64().unwrap() as u32, th["m"][2].as_u64().unwrap() as u32);
+                        let succ = moves.iter().find(|s| {
+                            let (f, to) = s.last_move.unwrap_or((Point(0, 0), Point(0, 0)));
+                            (sq_of(f), sq_of(to), kind_of(s)) == mv
+                        });
+                        if let Some(sb) = succ {
+                            let want2 = set_of(&th["legal"]);
+                            if let Ok(m2) = catch_unwind(AssertUnwindSafe(|| generate_moves(sb, MoveGenerationMode::AllMoves, &t.hasher))) {
+                                let got2: BTreeSet<(u32, u32, u32)> = m2.iter().map(|s| {
+                                    let (f, to) = s.last_move.unwrap_or((Point(0, 0), Point(0, 0)));
+                                    (sq_of(f), sq_of(to), kind_of(s))
+                                }).collect();
+                                if got2 != want2 || got2.len() != m2.len() {
+                                    let extra: Vec<_> = got2.difference(&want2).collect();
+                                    let missing: Vec<_> = want2.difference(&got2).collect();
+                                    mismatches.push(json!({"kind": "moveset-after", "pos": m["pos"], "after": th["m"], "extra": extra, "missing": missing}));
+                                }
+                            }
+                        }
+                    }
+                }
+            }
+        }
+        let chk = [is_check(&board, PieceColor::White), is_check(&board, PieceColor::Black)];
+        if chk[0] != m["chk"][0].as_bool().unwrap() || chk[1] != m["chk"][1].as_bool().unwrap() {
+            mismatches.push(json!({"kind": "check", "pos": m["pos"], "engine": chk, "spec": m["chk"]}));
+        }
+        if chk[0] || chk[1] || !want_caps.is_empty() || board.pawn_double_move.is_some() {
+            nontrivial += 1;
+        }
+    }
+    json!({"members": n, "nontrivial": nontrivial, "mismatches": mismatches})
+}
+
+// TLC-simulated games (move texts + the rules' position after every prefix) through the text applier
+pub fn game_replay(t: &Tables, input: &str) -> Value {
+    use crate::draw_table::DrawTable;
+    let mut n = 0u64;
+    let mut plies = 0u64;
+    let mut mismatches: Vec<Value> = Vec::new();
+    let mut specials = [0u64; 4]; // castle, ep, promo, double
+    let same = |s: &Value, want: &Value| -> bool { s["r"] == want["r"] && s["stm"] == want["stm"] && s["cr"] == want["cr"] && s["ep"] == want["ep"] };
+    for line in std::fs::read_to_string(input).unwrap().lines() {
+        let g: Value = match serde_json::from_str(line) {
+            Ok(v) => v,
+            Err(_) => continue,
+        };
+        n += 1;
+        let fen = g["fen"].as_str().unwrap();
+        let texts: Vec<String> = g["texts"].as_array().unwrap().iter().map(|x| x.as_str().unwrap().to_string()).collect();
+        let states = g["states"].as_array().unwrap();
+        let cmd = format!("position fen {} moves {}", fen, texts.join(" "));
+        // prefix by prefix through make_move
+        let mut b = match BoardState::from_fen(fen) {
+            Ok(b) => b,
+            Err(_) => {
+                mismatches.push(json!({"kind": "fen-rejected", "cmd": cmd}));
+                continue;
+            }
+        };
+        let mut failed = false;
+        for (i, tx) in texts.iter().enumerate() {
+            plies += 1;
+            if tx.len() == 5 {
+                specials[2] += 1;
+            }
+            let before = b.clone();
+            let r = catch_unwind(AssertUnwindSafe(|| crate::uci::verif_make_move(&mut b, tx, &t.hasher)));
+            if r.is_err() {
+                mismatches.push(json!({"kind": "text-apply-panic", "cmd": cmd, "prefix": i + 1, "text": tx}));
+                failed = true;
+                break;
+            }
+            let s = t.state(&b);
+            // king cache against the placement
+            let mut wk = 0u32;
+            let mut bk = 0u32;
+            for sq in 1..=64u32 {
+                let p = point_of(sq);
+                let c = piece_code(b.board[p.0][p.1]);
+                if c == 6 {
+                    wk = sq
+                }
+                if c == 12 {
+                    bk = sq
+                }
+            }
+            if !same(&s, &states[i]) || s["wk"] != json!(wk) || s["bk"] != json!(bk) {
+                mismatches.push(json!({"kind": "text-apply", "cmd": cmd, "prefix": i + 1, "text": tx, "engine": s, "rules": states[i]}));
+                failed = true;
+                break;
+            }
+            if !s["res"].as_array().unwrap().is_empty() {
+                mismatches.push(json!({"kind": "residue", "cmd": cmd, "prefix": i + 1, "text": tx, "res": s["res"]}));
+            }
+            let (f, to) = (tx[0..2].to_string(), tx[2..4].to_string());
+            let _ = (f, to, before);
+        }
+        if failed {
+            continue;
+        }
+        // the whole command through play_out_position
+        let toks: Vec<&str> = cmd.split(' ').collect();
+        let mut table = DrawTable::new();
+        let r = catch_unwind(AssertUnwindSafe(|| crate::uci::verif_play_out_position(&toks, &t.hasher, &mut table)));
+        match r {
+            Ok(fb) => {
+                let s = t.state(&fb);
+                if !texts.is_empty() && !same(&s, &states[texts.len() - 1]) {
+                    mismatches.push(json!({"kind": "position-final", "cmd": cmd, "engine": s, "rules": states[texts.len() - 1]}));
+                }
+            }
+            Err(_) => mismatches.push(json!({"kind": "position-panic", "cmd": cmd})),
+        }
+    }
+    json!({"games": n, "plies": plies, "promotions": specials[2], "mismatches": mismatches})
+}
